@@ -444,4 +444,54 @@ example :
       (fun r => r.2.length) = .ok 256 := by
   constructor <;> decide +kernel
 
+/-! ### the inter-byte timeout deadline (`TickitTerm.input_timeout_at`) -/
+
+/-- absolute microseconds of a `struct timeval` -/
+def us (t : TimeVal) : Int := t.sec * 1000000 + t.usec
+
+/-- After a drain that ends in `TERMKEY_RES_AGAIN`, the deadline is the clock reading plus the tokenizer's
+    wait time, as a normalised `timeval`; after any other result it is cleared. -/
+theorem timeout_armed_at (t now : TimeVal) (w : Int) (hn : 0 ≤ now.usec ∧ now.usec < 1000000)
+    (hw : 0 ≤ w ∧ w * 1000 < 1000000) :
+    us (armTimeout t now w Res.again) = us now + w * 1000 ∧
+    0 ≤ (armTimeout t now w Res.again).usec ∧ (armTimeout t now w Res.again).usec < 1000000 ∧
+    ∀ r, r ≠ Res.again → (armTimeout t now w r).sec = -1 := by
+  unfold armTimeout us MSEC SECOND
+  simp only [if_true]
+  refine ⟨?_, ?_, ?_, ?_⟩
+  · split <;> simp only <;> omega
+  · split <;> simp only <;> omega
+  · split <;> simp only <;> omega
+  · intro r hr; simp [hr]
+
+/-- `get_timeout` never fires early: it is 0 (force the pending bytes) exactly when the clock has reached
+    the deadline, otherwise the time left rounded up to whole milliseconds; −1 when no deadline is armed. -/
+theorem timeout_never_early (d now : TimeVal) (hdn : 0 ≤ d.usec ∧ d.usec < 1000000)
+    (hn : 0 ≤ now.usec ∧ now.usec < 1000000) :
+    (d.sec = -1 → getTimeout d now = -1) ∧
+    (d.sec ≠ -1 → us d ≤ us now → getTimeout d now = 0) ∧
+    (d.sec ≠ -1 → us now < us d → getTimeout d now = (us d - us now + 999) / 1000 ∧ 0 < getTimeout d now) := by
+  refine ⟨fun h => by simp [getTimeout, h], ?_, ?_⟩
+  · intro hd h
+    unfold getTimeout us MSEC SECOND at *
+    rw [if_neg hd]
+    simp only
+    by_cases hneg : d.usec - now.usec < 0
+    · simp only [hneg, if_true]; rw [if_neg (by omega)]
+    · simp only [hneg, if_false]; rw [if_neg (by omega)]
+  · intro hd h
+    unfold getTimeout us MSEC SECOND at *
+    rw [if_neg hd]
+    simp only
+    by_cases hneg : d.usec - now.usec < 0
+    · simp only [hneg, if_true]
+      rw [if_pos (by omega), Int.tdiv_eq_ediv_of_nonneg (by omega)]
+      omega
+    · simp only [hneg, if_false]
+      rw [if_pos (by omega), Int.tdiv_eq_ediv_of_nonneg (by omega)]
+      omega
+
+example : getTimeout (armTimeout ⟨-1, 0⟩ ⟨1000, 999000⟩ 50 Res.again) ⟨1001, 48999⟩ = 1 ∧
+    getTimeout (armTimeout ⟨-1, 0⟩ ⟨1000, 999000⟩ 50 Res.again) ⟨1001, 49000⟩ = 0 := by decide
+
 end Tickit.Props.C20
